@@ -3,7 +3,8 @@ add / move / rename / re-address / remove histories on a fresh real RemoteStack 
 META = dict(
     engine="seq", level="model_checking",
     technique="explicit-state BFS over remote add/move/rename/reha/remove/remove-all histories on a real RemoteStack, compared with a reference of one ordered member list after every step",
-    text="A pool of three remote device objects over uids {1,2,4,local 3}, names {a,b,c,local}, addresses {h1,h2,h3,local}: every history of "
+    text="A pool of remote device objects over uids {1,2,0,local 3}, names {a,b,'',local}, addresses {h1,h2,'',local} (falsy but legal keys included; a second "
+         "configuration gives the local device the falsy keys 0/''/''): every history of "
          "'create object with chosen or automatic uid/name and add it', add again, moveRemote, renameRemote, rehaRemote, removeRemote (on members and "
          "on look-alike objects that are not in the stack) and removeAllRemotes is explored breadth first with canonical-state dedupe up to the depth bound; "
          "after every operation the three indexes, every object's uid/name/ha and the accept/reject result are compared with a reference model "
@@ -20,10 +21,23 @@ NOBJ = 4                               # object pool; the general family creates
 GEN_OBJ = 3
 PRELOAD = [("new", 0, 1, "a", "h1"), ("new", 1, 2, "b", "h2"), ("new", 2, 4, "c", "h3"), ("new", 3, 5, "d", "h4")]
 FOCUS_DEPTH = 3 if QUICK else 4        # operations after the four-member preload
-LOCAL = dict(uid=3, name="local", ha="hl")
-UIDS = [1, 2, 3, 4]
-NAMES = ["a", "b", "c", "local"]
-HAS = ["h1", "h2", "h3", "hl"]
+LOCALS = dict(plain=dict(uid=3, name="local", ha="hl"),
+              falsy=dict(uid=0, name="", ha=""))      # legal keys that are false in a boolean test
+LOCAL = dict(LOCALS["plain"], cfg="plain")
+UIDS = [1, 2, 3, 0]
+NAMES = ["a", "b", "", "local"]
+HAS = ["h1", "h2", "", "hl"]
+
+
+def set_local(cfg):
+    """Select the local device's keys for this shard.  With the plain local device the remotes' universes contain the
+    falsy keys (uid 0, name '', ha ''); with the falsy local device those are the local keys and 4 / c / h3 take their place."""
+    LOCAL.clear()
+    LOCAL.update(LOCALS[cfg], cfg=cfg)
+    plain = cfg == "plain"
+    UIDS[:] = [1, 2, LOCAL["uid"], 0 if plain else 4]
+    NAMES[:] = ["a", "b", "" if plain else "c", LOCAL["name"]]
+    HAS[:] = ["h1", "h2", "" if plain else "h3", LOCAL["ha"]]
 
 
 def creations():
@@ -32,7 +46,7 @@ def creations():
         for n in ("a", "b"):
             for h in ("h1", "h2"):
                 out.append((u, n, h))
-    out += [(3, "a", "h1"), (1, "local", "h1"), (1, "a", "hl"), (None, None, "h3")]
+    out += [(LOCAL["uid"], "a", "h1"), (1, LOCAL["name"], "h1"), (1, "a", LOCAL["ha"]), (None, None, "h3")]
     return out
 
 
@@ -195,7 +209,7 @@ def op_str(op):
 
 
 def hist_str(h):
-    return " ".join(op_str(o) for o in h)
+    return ("" if LOCAL["cfg"] == "plain" else "[local uid=0 name='' ha=''] ") + " ".join(op_str(o) for o in h)
 
 
 def focused_ops(run):
@@ -236,7 +250,8 @@ def enabled_ops(run):
 
 
 def work(arg):
-    family, first = arg
+    family, first, lcfg = arg
+    set_local(lcfg)
     core.use_repo()
     p = core.Part()
     if family == "gen":
@@ -259,8 +274,8 @@ def work(arg):
             group, what = run.diverged
             p.outcome("diverged:" + group)
             p.violation(group, hist_str(history), what,
-                        dict(local=LOCAL, ops=[list(o) for o in history], nops=len(history),
-                             how="stack = RemoteStack(puid=2, uid=3, name='local', ha='hl'); newK(u,n,h) = obj K = RemoteDevice(stack, uid=u, name=n, ha=h); "
+                        dict(local=dict(LOCAL), ops=[list(o) for o in history], nops=len(history),
+                             how="stack = RemoteStack(puid=2, uid/name/ha = the 'local' entry of this file); newK(u,n,h) = obj K = RemoteDevice(stack, uid=u, name=n, ha=h); "
                                  "stack.addRemote(obj K); addK/removeK = stack.addRemote/removeRemote(obj K); moveK->x / renameK->x / rehaK->x = "
                                  "stack.moveRemote/renameRemote/rehaRemote(obj K, x); removeAll = stack.removeAllRemotes()",
                              divergence=what))
@@ -284,7 +299,16 @@ def run():
     gc.collect()
     gc.freeze()          # forked workers then do not copy the parent heap page by page
     ck = core.Check("C37", "model_checking", META["technique"])
-    items = [("gen", c) for c in creations()] + [("focus", op) for op in focused_ops(None)]
+    gen_cfgs = ["plain"] if QUICK else ["plain", "falsy"]
+    foc_cfgs = ["falsy"] if QUICK else ["falsy", "plain"]
+    items = []
+    for lc in gen_cfgs:
+        set_local(lc)
+        items += [("gen", c, lc) for c in creations()]
+    for lc in foc_cfgs:
+        set_local(lc)
+        items += [("focus", op, lc) for op in focused_ops(None)]
+    set_local("plain")
     parts = core.pmap(work, items)
     # keep, per violation group, the shortest history (ties: first shard) so the key is the minimal one
     best = {}
@@ -298,8 +322,11 @@ def run():
     ck.part.violations = [best[g][1] for g in sorted(best, key=lambda g: (best[g][0], g))]
     ck.coverage_extra = dict(first_operations=len(creations()), max_depth_after_first=MAX_DEPTH, objects=GEN_OBJ,
                              focused_family=dict(preload=[op_str(o) for o in PRELOAD], operations_after_preload=FOCUS_DEPTH, shards=len(focused_ops(None))),
-                             universe=dict(uids=UIDS, names=NAMES, has=HAS, local=LOCAL))
+                             universe=dict(uids=list(UIDS), names=list(NAMES), has=list(HAS), local=dict(LOCAL)),
+                             local_device_configs=dict(general_family=gen_cfgs, focused_family=foc_cfgs, falsy=LOCALS["falsy"]))
     ck.assumptions = [
+        "uid 0, name '' and ha '' are legal keys like any other (ha '' is the default address of a device); they occur as remote keys when the local device has "
+        "plain keys and as the local device's keys in the other configuration",
         "a rejected operation is one that raises ValueError (what every documented rejecting path of RemoteStack raises); any other exception is reported",
         "moving/renaming/re-addressing a remote to the value it already has is a no-op that may be accepted or rejected; nothing may change",
         "automatic uids: only uniqueness against current members and the local device is required, the assigned value is taken from the implementation",
